@@ -66,7 +66,7 @@ var panicSeen []string
 var panicMu sync.Mutex
 
 func Do(method, url string, body []byte) Resp {
-	var rd io.Reader
+	var rd io.Reader = http.NoBody // a real server never hands a nil Body to a handler
 	if body != nil {
 		rd = bytes.NewReader(body)
 	}
